@@ -6,6 +6,7 @@ import (
 	"errors"
 	"fmt"
 	"io"
+	"math"
 	"reflect"
 	"strings"
 	"time"
@@ -79,11 +80,27 @@ func c07RandomItem(r *gen.R) c07Item {
 	case 1:
 		return c07Item{Desc: "empty string", item: ""}
 	case 2:
-		n := r.Range(-5, 1000)
-		return c07Item{Desc: fmt.Sprintf("int %d", n), item: n}
+		n := r.EdgeInt()
+		var it interface{} = int(n)
+		switch r.Intn(8) {
+		case 0:
+			it = n
+		case 1:
+			it = uint64(n)
+		case 2:
+			it = int32(n)
+		case 3:
+			it = uint(n)
+		case 4:
+			it = uint8(n)
+		}
+		return c07Item{Desc: fmt.Sprintf("%T %d", it, it), item: it}
 	case 3:
-		f := gen.Pick(r, []float64{0, 1.5, -2.25, 1e21, 1e-7})
-		return c07Item{Desc: fmt.Sprintf("float %v", f), item: f}
+		f := r.EdgeFloat()
+		if r.Chance(1, 5) {
+			return c07Item{Desc: fmt.Sprintf("float32 %v", float32(f)), item: float32(f), fails: math.IsInf(float64(float32(f)), 0)}
+		}
+		return c07Item{Desc: fmt.Sprintf("float64 %v", f), item: f}
 	case 4:
 		b := r.Bool()
 		return c07Item{Desc: fmt.Sprintf("bool %v", b), item: b}
